@@ -97,11 +97,11 @@ def run_pair(ctx, a_ast, b_ast, kind):
 def run_shard(ctx):
     mon_dsl.install_canon()
     rng = ctx.rng
-    n = ctx.share({"quick": 6000, "thorough": 200000}[ctx.tier])
+    n = ctx.share({"quick": 12000, "thorough": 200000}[ctx.tier])
     for i in range(n):
         ast = ge.rand_expr_ast(rng, OPTS, max_depth=4 if ctx.tier == "quick" else 5)
         run_ast(ctx, ast, rng, mode="canonicalize" if i % 5 else "Canonicalizer")
-    m = ctx.share({"quick": 3000, "thorough": 80000}[ctx.tier])
+    m = ctx.share({"quick": 6000, "thorough": 80000}[ctx.tier])
     for i in range(m):
         ast = ge.rand_expr_ast(rng, OPTS, max_depth=3)
         if i % 2:
